@@ -2,12 +2,15 @@ package standard
 
 // Conformance driver for property C05 (spec/Proposer.tla).  Injected with -overlay by /verif/check.
 //
-// Each scenario (one duty; emitted by TLC from spec/Scen_Proposer.tla) builds the real proposer
-// service with scripted fakes at every interface, calls Prepare and Propose, and records one event
+// Each scenario (the history of one service instance: one or more duties; emitted by TLC from
+// spec/Scen_Proposer.tla) builds the real proposer service ONCE with scripted fakes at every
+// interface, then hands it the duties one after the other (Prepare, Propose) and records one event
 // per interface call the real code makes - with the arguments it really passed, decoded with the
-// library's own accessors - under the scenario's lock at the time of the call.  Scenarios run
-// concurrently (the code sleeps 250 ms between relay retries); each scenario's events are written
-// contiguously, in the order of its calls.
+// library's own accessors - under the current duty's lock at the time of the call.  Every duty runs
+// under a watchdog: a Propose that has not returned long after its context ended is recorded as
+// Hung (no action of the specification explains that line) and the instance is abandoned.
+// Scenarios run concurrently (the code sleeps 250 ms between relay retries); each scenario's events
+// are written contiguously, in the order of its calls.
 
 import (
 	"context"
@@ -27,6 +30,7 @@ import (
 	builderclient "github.com/attestantio/go-builder-client"
 	builderapi "github.com/attestantio/go-builder-client/api"
 	builderspec "github.com/attestantio/go-builder-client/spec"
+	consensusclient "github.com/attestantio/go-eth2-client"
 	"github.com/attestantio/go-eth2-client/api"
 	"github.com/attestantio/go-eth2-client/spec/phase0"
 	"github.com/attestantio/vouch/services/beaconblockproposer"
@@ -37,20 +41,33 @@ import (
 	e2wtypes "github.com/wealdtech/go-eth2-wallet-types/v2"
 )
 
+type c05Cfg struct {
+	Graffiti   bool `json:"graffiti"`
+	Nodeclient bool `json:"nodeclient"` // the proposal provider implements NodeClientProvider
+	Auctioneer bool `json:"auctioneer"`
+	UnblindAll bool `json:"unblindAll"`
+}
+
+// c05History is a scenario: one service instance and the duties it is handed, in order.
+type c05History struct {
+	Sc     int           `json:"sc"`
+	Salt   uint32        `json:"salt"`
+	Cfg    c05Cfg        `json:"cfg"`
+	Duties []c05Scenario `json:"duties"`
+}
+
+// c05Scenario is the environment's side of one duty (Sc, Salt and Cfg are those of its history).
 type c05Scenario struct {
-	Sc   int    `json:"sc"`
-	Slot uint64 `json:"slot"`
-	V    uint64 `json:"v"`
-	Salt uint32 `json:"salt"`
-	Cfg  struct {
-		Graffiti   bool `json:"graffiti"`
-		Auctioneer bool `json:"auctioneer"`
-		UnblindAll bool `json:"unblindAll"`
-	} `json:"cfg"`
-	Accounts string `json:"accounts"`
-	Randao   string `json:"randao"`
-	Graffiti string `json:"graffiti"`
-	Auction  struct {
+	Sc         int    `json:"sc"`
+	Slot       uint64 `json:"slot"`
+	V          uint64 `json:"v"`
+	Salt       uint32 `json:"salt"`
+	Cfg        c05Cfg `json:"cfg"`
+	Accounts   string `json:"accounts"`
+	Randao     string `json:"randao"`
+	Graffiti   string `json:"graffiti"`   // static | template | err
+	Nodeclient string `json:"nodeclient"` // ok | err (| na)
+	Auction    struct {
 		Kind      string `json:"kind"`
 		All       []bool `json:"all"`
 		Providers []bool `json:"providers"`
@@ -75,9 +92,9 @@ const (
 
 type c05PubKey struct{ b [48]byte }
 
-func (p *c05PubKey) Marshal() []byte            { return p.b[:] }
+func (p *c05PubKey) Marshal() []byte             { return p.b[:] }
 func (*c05PubKey) Aggregate(_ e2types.PublicKey) {}
-func (p *c05PubKey) Copy() e2types.PublicKey    { c := *p; return &c }
+func (p *c05PubKey) Copy() e2types.PublicKey     { c := *p; return &c }
 
 // c05Account is the account of validator v.  ID() is never called on these paths (google/uuid is
 // only an indirect requirement of the repository, so the method comes from the embedded interface).
@@ -163,8 +180,30 @@ type c05Revealed struct {
 	q        verifsupport.Ev
 }
 
+// c05Hist is the recording side of a history: the fakes of the service instance write to the run of
+// the duty that is being handled.
+type c05Hist struct {
+	mu     sync.Mutex
+	cur    *c05Run
+	tokens int
+}
+
+func (h *c05Hist) run() *c05Run {
+	h.mu.Lock()
+	defer h.mu.Unlock()
+	return h.cur
+}
+
+func (h *c05Hist) set(run *c05Run) {
+	h.mu.Lock()
+	h.cur = run
+	h.mu.Unlock()
+}
+
+// c05Run records one duty.
 type c05Run struct {
-	sc *c05Scenario
+	sc   *c05Scenario
+	hist *c05Hist
 
 	mu        sync.Mutex
 	events    []verifsupport.Ev
@@ -172,7 +211,6 @@ type c05Run struct {
 	roots     map[phase0.Root]c05RootTag
 	obtained  []*c05Obtained
 	revealed  []*c05Revealed
-	tokens    int
 	attempts  map[int]int
 	finished  map[int]bool // relay reached a terminal state without revealing a block
 	delivers  map[int]bool
@@ -196,9 +234,12 @@ func (run *c05Run) emit(ev verifsupport.Ev) {
 	run.emitLocked(ev)
 }
 
+// nextToken: tokens are unique over the whole history of the instance.
 func (run *c05Run) nextToken() int {
-	run.tokens++
-	return int(run.sc.Salt%1000)*100 + run.tokens
+	run.hist.mu.Lock()
+	defer run.hist.mu.Unlock()
+	run.hist.tokens++
+	return int(run.sc.Salt%1000)*100 + run.hist.tokens
 }
 
 func (run *c05Run) rootTag(r phase0.Root) verifsupport.Ev {
@@ -221,7 +262,7 @@ func c05Flags(flags []bool) []int {
 
 // ---- fakes ------------------------------------------------------------------------------------
 
-type c05Accounts struct{ run *c05Run }
+type c05Accounts struct{ h *c05Hist }
 
 func (a *c05Accounts) ValidatingAccountsForEpoch(_ context.Context, _ phase0.Epoch) (map[phase0.ValidatorIndex]e2wtypes.Account, error) {
 	return nil, errors.New("not used")
@@ -233,8 +274,9 @@ func (a *c05Accounts) ValidatingAccountsForEpochByIndex(_ context.Context, epoch
 	for _, i := range indices {
 		idxs = append(idxs, uint64(i))
 	}
-	out := a.run.sc.Accounts
-	a.run.emit(verifsupport.Ev{"ev": "Accounts", "epoch": uint64(epoch), "idxs": idxs, "out": out})
+	run := a.h.run()
+	out := run.sc.Accounts
+	run.emit(verifsupport.Ev{"ev": "Accounts", "epoch": uint64(epoch), "idxs": idxs, "out": out})
 	switch out {
 	case "err":
 		return nil, errors.New("scripted accounts failure")
@@ -256,10 +298,10 @@ func (a *c05Accounts) SyncCommitteeAccountsForEpochByIndex(_ context.Context, _ 
 	return nil, errors.New("not used")
 }
 
-type c05Signer struct{ run *c05Run }
+type c05Signer struct{ h *c05Hist }
 
 func (s *c05Signer) SignRANDAOReveal(_ context.Context, account e2wtypes.Account, slot phase0.Slot) (phase0.BLSSignature, error) {
-	run := s.run
+	run := s.h.run()
 	run.mu.Lock()
 	defer run.mu.Unlock()
 	out := run.sc.Randao
@@ -277,7 +319,7 @@ func (s *c05Signer) SignRANDAOReveal(_ context.Context, account e2wtypes.Account
 func (s *c05Signer) SignBeaconBlockProposal(_ context.Context, account e2wtypes.Account, slot phase0.Slot,
 	proposerIndex phase0.ValidatorIndex, parentRoot phase0.Root, stateRoot phase0.Root, bodyRoot phase0.Root,
 ) (phase0.BLSSignature, error) {
-	run := s.run
+	run := s.h.run()
 	run.mu.Lock()
 	defer run.mu.Unlock()
 	out := run.sc.Sign
@@ -300,18 +342,22 @@ func (s *c05Signer) SignBlobSidecar(_ context.Context, _ e2wtypes.Account, _ pha
 	return phase0.BLSSignature{}, errors.New("not used")
 }
 
-type c05GraffitiProvider struct{ run *c05Run }
+type c05GraffitiProvider struct{ h *c05Hist }
 
 func (g *c05GraffitiProvider) Graffiti(_ context.Context, slot phase0.Slot, validatorIndex phase0.ValidatorIndex) ([]byte, error) {
-	out := g.run.sc.Graffiti
-	if out != "err" {
-		out = "ok"
+	run := g.h.run()
+	out := run.sc.Graffiti
+	if out != "err" && out != "template" {
+		out = "static"
 	}
-	g.run.emit(verifsupport.Ev{"ev": "Graffiti", "slot": uint64(slot), "v": uint64(validatorIndex), "out": out})
-	if out == "err" {
+	run.emit(verifsupport.Ev{"ev": "Graffiti", "slot": uint64(slot), "v": uint64(validatorIndex), "out": out})
+	switch out {
+	case "err":
 		return nil, errors.New("scripted graffiti failure")
+	case "template":
+		return []byte(fmt.Sprintf("c05 {{CLIENT}} %d", run.sc.Salt)), nil
 	}
-	return []byte(fmt.Sprintf("c05 graffiti %d", g.run.sc.Salt)), nil
+	return []byte(fmt.Sprintf("c05 graffiti %d", run.sc.Salt)), nil
 }
 
 type c05Head struct{}
@@ -320,36 +366,58 @@ func (c05Head) ExecutionChainHead(_ context.Context) (phase0.Hash32, uint64) {
 	return phase0.Hash32{0xee}, 12345
 }
 
-type c05Auctioneer struct {
-	run    *c05Run
-	relays []*c05Relay
-}
+type c05Auctioneer struct{ h *c05Hist }
 
 func (a *c05Auctioneer) AuctionBlock(_ context.Context, slot phase0.Slot, _ phase0.Hash32, pubkey phase0.BLSPubKey) (*blockauctioneer.Results, error) {
-	sc := a.run.sc
+	run := a.h.run()
+	sc := run.sc
+	// the relays of this auction belong to this duty: goroutines that outlive it keep writing to its
+	// (closed) record, not to a later duty's
+	relays := make([]*c05Relay, len(sc.Relays))
+	for i := range relays {
+		relays[i] = &c05Relay{run: run, n: i + 1, script: sc.Relays[i]}
+	}
 	all, providers := c05Flags(sc.Auction.All), c05Flags(sc.Auction.Providers)
 	out := "results"
 	if sc.Auction.Kind == "err" {
 		out, all, providers = "err", []int{}, []int{}
 	}
-	a.run.emit(verifsupport.Ev{"ev": "Auction", "slot": uint64(slot), "pubv": c05PubkeyID(pubkey), "out": out, "all": all, "providers": providers})
+	run.emit(verifsupport.Ev{"ev": "Auction", "slot": uint64(slot), "pubv": c05PubkeyID(pubkey), "out": out, "all": all, "providers": providers})
 	if out == "err" {
 		return nil, errors.New("scripted auction failure")
 	}
 	res := &blockauctioneer.Results{Participation: map[string]*blockauctioneer.Participation{}}
 	for _, r := range all {
-		res.AllProviders = append(res.AllProviders, a.relays[r-1])
+		res.AllProviders = append(res.AllProviders, relays[r-1])
 	}
 	for _, r := range providers {
-		res.Providers = append(res.Providers, a.relays[r-1])
+		res.Providers = append(res.Providers, relays[r-1])
 	}
 	return res, nil
 }
 
-type c05ProposalProvider struct{ run *c05Run }
+type c05ProposalProvider struct{ h *c05Hist }
+
+// c05ProposalProviderNC is a proposal provider that also implements consensusclient.NodeClientProvider
+// (as real beacon node clients do): obtainGraffiti asks it for the name of the node's client when the
+// graffiti contains {{CLIENT}}.
+type c05ProposalProviderNC struct{ c05ProposalProvider }
+
+func (p *c05ProposalProviderNC) NodeClient(_ context.Context) (*api.Response[string], error) {
+	run := p.h.run()
+	out := run.sc.Nodeclient
+	if out != "err" {
+		out = "ok"
+	}
+	run.emit(verifsupport.Ev{"ev": "NodeClient", "out": out})
+	if out == "err" {
+		return nil, errors.New("scripted node client failure")
+	}
+	return &api.Response[string]{Data: "c05client", Metadata: map[string]any{}}, nil
+}
 
 func (p *c05ProposalProvider) Proposal(_ context.Context, opts *api.ProposalOpts) (*api.Response[*api.VersionedProposal], error) {
-	run := p.run
+	run := p.h.run()
 	run.mu.Lock()
 	defer run.mu.Unlock()
 	sc := run.sc
@@ -562,7 +630,7 @@ func (run *c05Run) maybeCancelLocked() {
 
 // ---- submitter --------------------------------------------------------------------------------
 
-type c05Submitter struct{ run *c05Run }
+type c05Submitter struct{ h *c05Hist }
 
 // describeSubmitted describes the container handed to SubmitProposal: where it comes from (the
 // obtained proposal, a relay's answer, neither), and whether it is untouched, comparing field by
@@ -709,7 +777,7 @@ func (run *c05Run) describeSubmitted(p *api.VersionedSignedProposal) verifsuppor
 }
 
 func (s *c05Submitter) SubmitProposal(_ context.Context, proposal *api.VersionedSignedProposal) error {
-	run := s.run
+	run := s.h.run()
 	run.mu.Lock()
 	defer run.mu.Unlock()
 	out := run.sc.Submit
@@ -733,39 +801,66 @@ func c05Candidates(sc *c05Scenario) []int {
 	return providers
 }
 
-func c05RunScenario(t *testing.T, sc *c05Scenario, fallback time.Duration, autoCancel bool) *c05Run {
-	run := &c05Run{
-		sc: sc, roots: map[phase0.Root]c05RootTag{}, attempts: map[int]int{}, finished: map[int]bool{},
-		delivers: map[int]bool{},
+// c05HistoryResult is what one history produced: the records of the duties that were handed to the
+// instance (a duty after a hung one is not), in order.
+type c05HistoryResult struct {
+	runs []*c05Run
+	hung bool
+}
+
+func (res *c05HistoryResult) events() []verifsupport.Ev {
+	var evs []verifsupport.Ev
+	for _, run := range res.runs {
+		evs = append(evs, run.events...)
 	}
+	return evs
+}
+
+func (res *c05HistoryResult) crash() string {
+	for _, run := range res.runs {
+		if run.crash != "" {
+			return run.crash
+		}
+	}
+	return ""
+}
+
+// c05RunHistory builds ONE real service and hands it the duties of the history one after the other.
+// fallback: the job context of a Propose is ended after this long at the latest; grace: a Propose that
+// has still not returned this long after the fallback is recorded as Hung and the instance abandoned
+// (its goroutine is left behind; nothing else waits for it).
+func c05RunHistory(t *testing.T, h *c05History, fallback time.Duration, grace time.Duration, autoCancel bool) *c05HistoryResult {
+	hist := &c05Hist{}
 	ctx := context.Background()
 	ct := verifsupport.NewChainTime(32, 12*time.Second)
-	ct.SetSlot(sc.Slot)
-
-	relays := make([]*c05Relay, len(sc.Relays))
-	for i := range relays {
-		relays[i] = &c05Relay{run: run, n: i + 1, script: sc.Relays[i]}
+	if len(h.Duties) > 0 {
+		ct.SetSlot(h.Duties[0].Slot)
 	}
-	signer := &c05Signer{run: run}
+
+	signer := &c05Signer{h: hist}
 	params := []Parameter{
 		WithLogLevel(zerolog.Disabled),
 		WithMonitor(nullmetrics.New()),
 		WithChainTime(ct),
-		WithProposalDataProvider(&c05ProposalProvider{run: run}),
-		WithValidatingAccountsProvider(&c05Accounts{run: run}),
-		WithProposalSubmitter(&c05Submitter{run: run}),
+		WithValidatingAccountsProvider(&c05Accounts{h: hist}),
+		WithProposalSubmitter(&c05Submitter{h: hist}),
 		WithRANDAORevealSigner(signer),
 		WithBeaconBlockSigner(signer),
 		WithBlobSidecarSigner(signer),
-		WithUnblindFromAllRelays(sc.Cfg.UnblindAll),
+		WithUnblindFromAllRelays(h.Cfg.UnblindAll),
 		WithBuilderBoostFactor(100),
 	}
-	if sc.Cfg.Graffiti {
-		params = append(params, WithGraffitiProvider(&c05GraffitiProvider{run: run}))
+	if h.Cfg.Nodeclient {
+		params = append(params, WithProposalDataProvider(&c05ProposalProviderNC{c05ProposalProvider{h: hist}}))
+	} else {
+		params = append(params, WithProposalDataProvider(&c05ProposalProvider{h: hist}))
 	}
-	if sc.Cfg.Auctioneer {
+	if h.Cfg.Graffiti {
+		params = append(params, WithGraffitiProvider(&c05GraffitiProvider{h: hist}))
+	}
+	if h.Cfg.Auctioneer {
 		params = append(params,
-			WithBlockAuctioneer(&c05Auctioneer{run: run, relays: relays}),
+			WithBlockAuctioneer(&c05Auctioneer{h: hist}),
 			WithExecutionChainHeadProvider(c05Head{}))
 	}
 	s, err := New(ctx, params...)
@@ -773,10 +868,60 @@ func c05RunScenario(t *testing.T, sc *c05Scenario, fallback time.Duration, autoC
 		t.Fatalf("beaconblockproposer New: %v", err)
 	}
 
-	run.emit(verifsupport.Ev{"ev": "Reset", "slot": sc.Slot, "v": sc.V, "cfg": verifsupport.Ev{
-		"graffiti": sc.Cfg.Graffiti, "auctioneer": sc.Cfg.Auctioneer, "unblindAll": sc.Cfg.UnblindAll,
-	}})
+	res := &c05HistoryResult{}
+	for i := range h.Duties {
+		sc := &h.Duties[i]
+		sc.Sc, sc.Salt, sc.Cfg = h.Sc, h.Salt, h.Cfg
+		run := &c05Run{
+			sc: sc, hist: hist, roots: map[phase0.Root]c05RootTag{}, attempts: map[int]int{}, finished: map[int]bool{},
+			delivers: map[int]bool{},
+		}
+		hist.set(run)
+		res.runs = append(res.runs, run)
+		ct.SetSlot(sc.Slot)
+		if i == 0 {
+			run.emit(verifsupport.Ev{"ev": "Reset", "slot": sc.Slot, "v": sc.V, "cfg": verifsupport.Ev{
+				"graffiti": h.Cfg.Graffiti, "nodeclient": h.Cfg.Nodeclient, "auctioneer": h.Cfg.Auctioneer,
+				"unblindAll": h.Cfg.UnblindAll,
+			}})
+		} else {
+			run.emit(verifsupport.Ev{"ev": "NextDuty", "slot": sc.Slot, "v": sc.V, "duty": i + 1})
+		}
 
+		done := make(chan struct{})
+		go func() {
+			defer close(done)
+			c05RunDuty(ctx, s, run, fallback, autoCancel)
+		}()
+		watchdog := time.NewTimer(fallback + grace)
+		select {
+		case <-done:
+			watchdog.Stop()
+		case <-watchdog.C:
+			// Propose (or Prepare) has not returned although its context ended `grace` ago.
+			run.mu.Lock()
+			if !run.closed {
+				run.emitLocked(verifsupport.Ev{"ev": "Hung", "duty": i + 1, "after_ms": (fallback + grace).Milliseconds()})
+				run.closed = true
+				res.hung = true
+			}
+			cancel := run.cancel
+			run.mu.Unlock()
+			if cancel != nil {
+				cancel()
+			}
+		}
+		if res.hung {
+			// the instance is wedged; its later duties cannot be handed over
+			break
+		}
+	}
+	return res
+}
+
+// c05RunDuty is Prepare and Propose for one duty, as the controller would call them.
+func c05RunDuty(ctx context.Context, s *Service, run *c05Run, fallback time.Duration, autoCancel bool) {
+	sc := run.sc
 	duty := beaconblockproposer.NewDuty(phase0.Slot(sc.Slot), phase0.ValidatorIndex(sc.V))
 	guarded := func(what string, fn func()) {
 		defer func() {
@@ -822,7 +967,6 @@ func c05RunScenario(t *testing.T, sc *c05Scenario, fallback time.Duration, autoC
 	run.closed = true
 	run.mu.Unlock()
 	cancel()
-	return run
 }
 
 // c05BlockedInUnblind counts goroutines that still sit in unblindProposal's relay closure.
@@ -841,17 +985,21 @@ func c05BlockedInUnblind() (total int, chanSend int) {
 }
 
 func TestVerifC05(t *testing.T) {
-	var scenarios []c05Scenario
+	if _, is := any(&c05ProposalProvider{}).(consensusclient.NodeClientProvider); is {
+		t.Fatal("c05ProposalProvider must not implement NodeClientProvider")
+	}
+	var scenarios []c05History
 	verifsupport.Scenarios(t, &scenarios)
 	tr := verifsupport.OpenTrace(t)
 	defer tr.Close()
 
 	fallback := 15 * time.Second
+	grace := 15 * time.Second
 	workers := 192
 	if len(scenarios) < workers {
 		workers = len(scenarios)
 	}
-	runs := make([]*c05Run, len(scenarios))
+	runs := make([]*c05HistoryResult, len(scenarios))
 	var wg sync.WaitGroup
 	next := make(chan int)
 	for w := 0; w < workers; w++ {
@@ -859,7 +1007,7 @@ func TestVerifC05(t *testing.T) {
 		go func() {
 			defer wg.Done()
 			for i := range next {
-				runs[i] = c05RunScenario(t, &scenarios[i], fallback, true)
+				runs[i] = c05RunHistory(t, &scenarios[i], fallback, grace, true)
 			}
 		}()
 	}
@@ -871,22 +1019,26 @@ func TestVerifC05(t *testing.T) {
 
 	crashes := []string{}
 	fallbacks := 0
+	hung := 0
 	for i, run := range runs {
-		for _, ev := range run.events {
+		for _, ev := range run.events() {
 			if ev["ev"] == "Cancel" && ev["why"] == "driver fallback deadline" {
 				fallbacks++
 			}
 			tr.Emit(ev)
 		}
-		if run.crash != "" {
-			crashes = append(crashes, fmt.Sprintf("scenario %d: %s", scenarios[i].Sc, run.crash))
+		if run.hung {
+			hung++
+		}
+		if c := run.crash(); c != "" {
+			crashes = append(crashes, fmt.Sprintf("scenario %d: %s", scenarios[i].Sc, c))
 		}
 	}
 
 	// Observations that belong to other properties (C16: crashes; C20: goroutines left behind);
 	// never part of C05's verdict.
 	if path := os.Getenv("VERIF_C05_OBS"); path != "" {
-		obs := map[string]any{"scenarios": len(scenarios), "crashes_in_scenarios": crashes, "fallback_cancels": fallbacks}
+		obs := map[string]any{"scenarios": len(scenarios), "crashes_in_scenarios": crashes, "fallback_cancels": fallbacks, "hung": hung}
 		// Every job context of the driver has been cancelled; what is left now is blocked for good.
 		time.Sleep(1500 * time.Millisecond)
 		total, sending := c05BlockedInUnblind()
@@ -904,7 +1056,7 @@ func TestVerifC05(t *testing.T) {
 // C16) or leave goroutines behind (property C20), and reports what happens.
 func c05Probes(t *testing.T) []map[string]any {
 	mk := func(name string, mut func(sc *c05Scenario)) (string, *c05Scenario) {
-		sc := &c05Scenario{Sc: -1, Slot: 4242, V: 11, Salt: 77, Accounts: "ok", Randao: "ok", Graffiti: "ok", Sign: "ok", Submit: "ok"}
+		sc := &c05Scenario{Sc: -1, Slot: 4242, V: 11, Salt: 77, Accounts: "ok", Randao: "ok", Graffiti: "static", Nodeclient: "na", Sign: "ok", Submit: "ok"}
 		sc.Cfg.Graffiti, sc.Cfg.Auctioneer = true, true
 		sc.Auction.Kind, sc.Auction.All, sc.Auction.Providers = "results", []bool{true, true, true}, []bool{true, false, false}
 		sc.Proposal.Out, sc.Proposal.Version, sc.Proposal.Blinded = "ok", "capella", true
@@ -915,6 +1067,9 @@ func c05Probes(t *testing.T) []map[string]any {
 	type probe struct {
 		name string
 		sc   *c05Scenario
+	}
+	single := func(sc *c05Scenario, fallback time.Duration, autoCancel bool) *c05HistoryResult {
+		return c05RunHistory(t, &c05History{Sc: sc.Sc, Salt: sc.Salt, Cfg: sc.Cfg, Duties: []c05Scenario{*sc}}, fallback, 10*time.Second, autoCancel)
 	}
 	var probes []probe
 	add := func(name string, sc *c05Scenario) { probes = append(probes, probe{name, sc}) }
@@ -934,30 +1089,30 @@ func c05Probes(t *testing.T) []map[string]any {
 	for _, p := range probes {
 		before, _ := c05BlockedInUnblind()
 		started := time.Now()
-		var run *c05Run
+		var run *c05HistoryResult
 		if strings.HasPrefix(p.name, "all relays fail") {
 			// no early cancel: show that Propose only returns when the context ends
-			run = c05RunScenario(t, p.sc, 2*time.Second, false)
+			run = single(p.sc, 2*time.Second, false)
 		} else {
-			run = c05RunScenario(t, p.sc, 5*time.Second, true)
+			run = single(p.sc, 5*time.Second, true)
 		}
 		elapsed := time.Since(started)
 		time.Sleep(1200 * time.Millisecond)
 		after, sending := c05BlockedInUnblind()
 		evs := []string{}
-		for _, ev := range run.events {
+		for _, ev := range run.events() {
 			evs = append(evs, fmt.Sprint(ev["ev"]))
 		}
 		submitted := ""
-		for _, ev := range run.events {
+		for _, ev := range run.events() {
 			if ev["ev"] == "Submit" {
 				b, _ := json.Marshal(ev["desc"])
 				submitted = string(b)
 			}
 		}
 		res = append(res, map[string]any{
-			"probe": p.name, "crash": run.crash, "events": strings.Join(evs, " "), "submitted": submitted,
-			"propose_returned_after_ms": elapsed.Milliseconds(),
+			"probe": p.name, "crash": run.crash(), "events": strings.Join(evs, " "), "submitted": submitted,
+			"propose_returned_after_ms":          elapsed.Milliseconds(),
 			"goroutines_left_in_unblindProposal": after - before, "blocked_sending_total": sending,
 		})
 	}
@@ -966,3 +1121,7 @@ func c05Probes(t *testing.T) []map[string]any {
 
 var _ builderclient.UnblindedProposalProvider = (*c05Relay)(nil)
 var _ builderclient.BuilderBidProvider = (*c05Relay)(nil)
+
+// the interface obtainGraffiti looks for on the proposal provider
+var _ consensusclient.NodeClientProvider = (*c05ProposalProviderNC)(nil)
+var _ consensusclient.ProposalProvider = (*c05ProposalProvider)(nil)
